@@ -1,5 +1,7 @@
 import WfModel.DeployId
 /-! Helper lemmas for C32 (core Lean only). -/
+set_option linter.unusedSimpArgs false
+
 namespace DeployId
 
 theorem isLower_isAlnum {c : Char} (h : isLower c = true) : isAlnum c = true := by
